@@ -271,6 +271,11 @@ def oracle_crash(R, ex):
         return [('crash', '%s escaped execute_once: %s' % (ex.outcome[6:], str(ex.exc)[:100]))]
     if ex.drain and ex.drain[0] == 'crash':
         return [('crash', '%s escaped the execute_once following a reported error' % ex.drain[1])]
+    # guard against latent divergence (DESIGN.md §3.4): the public view must be the interpreter's own state
+    priv = getattr(ex.it, '_configuration', None)
+    if isinstance(priv, (set, frozenset, list)) and set(priv) != set(ex.conf_after):
+        return [('crash', 'Interpreter.configuration shows %s but the interpreter works on %s'
+                 % (sorted(ex.conf_after), sorted(priv)))]
     return []
 
 
